@@ -48,6 +48,7 @@ type Safe struct {
 	Quiet     bool // do not record panic obligations (serialiser runs)
 	// configuration
 	AssumeTree bool
+	noPaths    bool // disable the path-sensitive re-analysis (safe_paths.go)
 }
 
 type AllocSite struct {
